@@ -193,3 +193,69 @@ def ends_exclude(pattern: str, excluded_ranges) -> bool:
                 if lo <= xhi and xlo <= hi:
                     return False
     return True
+
+
+def alphabet_excludes(pattern: str, ch: str) -> bool:
+    """True iff no string of L(pattern) can contain the character ``ch`` (decided syntactically)."""
+    code = ord(ch)
+
+    def ok(items):
+        for op, av in items:
+            if op is sre_c.LITERAL:
+                if av == code:
+                    return False
+            elif op is sre_c.IN:
+                r = _cls_ranges(av)
+                if any(lo <= code <= hi for lo, hi in r):
+                    return False
+            elif op is sre_c.SUBPATTERN:
+                if not ok(av[3]):
+                    return False
+            elif op is sre_c.BRANCH:
+                if not all(ok(b) for b in av[1]):
+                    return False
+            elif op in (sre_c.MAX_REPEAT, sre_c.MIN_REPEAT):
+                if not ok(av[2]):
+                    return False
+            elif op is sre_c.AT:
+                continue
+            elif op is sre_c.CATEGORY:
+                if av is sre_c.CATEGORY_DIGIT and 48 <= code <= 57:
+                    return False
+                if av is not sre_c.CATEGORY_DIGIT:
+                    return False
+            else:
+                return False
+        return True
+
+    return ok(list(sre_parse.parse(pattern)))
+
+
+def only_chars(pattern: str, pred) -> bool:
+    """True iff every character any string of L(pattern) can contain satisfies ``pred`` (syntactic)."""
+
+    def ok(items):
+        for op, av in items:
+            if op is sre_c.LITERAL:
+                if not pred(chr(av)):
+                    return False
+            elif op is sre_c.IN:
+                for lo, hi in _cls_ranges(av):
+                    if hi - lo > 64 or any(not pred(chr(c)) for c in range(lo, hi + 1)):
+                        return False
+            elif op is sre_c.SUBPATTERN:
+                if not ok(av[3]):
+                    return False
+            elif op is sre_c.BRANCH:
+                if not all(ok(b) for b in av[1]):
+                    return False
+            elif op in (sre_c.MAX_REPEAT, sre_c.MIN_REPEAT):
+                if not ok(av[2]):
+                    return False
+            elif op is sre_c.AT:
+                continue
+            else:
+                return False
+        return True
+
+    return ok(list(sre_parse.parse(pattern)))
